@@ -289,6 +289,18 @@ def eval_sensitivity(case):
                 continue
             if Hc.verify(q, h, **ctxs):
                 out.append((key + f":{label}_ignored", f"{name}: changing the {label} character of a {n}-character password still verifies"))
+        # ... and on the LENGTH: no proper extension and no proper prefix of the password verifies (a hasher without a
+        # limit must not stop reading at a block boundary of its algorithm)
+        for label, q in (("extended_by_1", p + "x"), ("extended_by_block", p + p[:8] + "q"), ("doubled", p + p), ("shortened_by_1", p[:-1])):
+            if q == p or len(q) > 4096 or HS.equiv(name, p, q, ctxs, {}) or not HS.admissible(name, q, ctxs):
+                continue
+            for form in ("text", "bytes"):
+                qq = q if form == "text" else q.encode("utf-8")
+                if form == "bytes" and name in HS.TEXT_ONLY:
+                    continue
+                if Hc.verify(qq, h, **ctxs):
+                    out.append((key + f":{label}_accepted", f"{name}: the {n}-character password {label.replace('_', ' ')} ({form}) still verifies against its hash {h!r}"))
+                    break
     except Exception as e:  # noqa: BLE001
         out.append((key + f":raises:{_exc_name(e)}", f"raised {e!r}"))
     return out
@@ -439,7 +451,7 @@ def run(ctx):
             for via in vias:
                 cases.append({"part": "maxsize", "hasher": name, "n": n, "via": via})
     # ---- part sensitivity
-    lens = (1, 2, 9, 17, 73, 255, 1000, 4096) if ctx.quick else (1, 2, 8, 9, 16, 17, 33, 56, 64, 72, 73, 128, 129, 255, 256, 1000, 4095, 4096)
+    lens = (1, 2, 8, 9, 16, 17, 24, 64, 73, 128, 255, 1000, 4096) if ctx.quick else (1, 2, 8, 9, 16, 17, 33, 56, 64, 72, 73, 128, 129, 255, 256, 1000, 4095, 4096)
     for name in HS.usable_names():
         H = HS.handler(name)
         if getattr(H, "truncate_size", None) or name in HS.DISABLED:
